@@ -25,7 +25,9 @@
 //!        result = none | send <addr> <hex> | payload <id> <hex> | connected <id> <addr> <ud-hex> <hex>
 //!               | disconnected <id> <addr> <hex|none>
 //!   srv-pay <s> <id> <hex>                -> send <addr> <hex> | err:<E>
-//!   srv-q <s> <id>                        -> ids=[..] n=<k> max=<m> conn=<0|1> addr=<addr|-> ud=<hex8|-> idle=<ns|->
+//!   srv-q <s> <id>                        -> ids=[..] n=<k> max=<m> conn=<0|1> addr=<addr|-> ud=<hex8|-> idle=<ns|-> time=<ns> slots=[..] pub=<addrs>
+//!        (clients_id, connected_clients, max_clients, is_client_connected, client_addr, user_data, time_since_last_received_packet,
+//!         current_time, clients_slot, addresses)
 //!   srv-dump <s>                          -> NetcodeServer::verif_dump()
 //!   cli-new <c> <now_us> <token-hex>      -> ok | err:<E> | panic
 //!   cli-upd <c> <micros>                  -> none | send <addr> <hex>
@@ -560,15 +562,20 @@ impl NcWorld {
                 let id = p_u64(id)?;
                 let s = self.servers.get(&p_u64(h)?)?;
                 let ids: Vec<String> = s.clients_id().iter().map(|x| x.to_string()).collect();
+                let slots: Vec<String> = s.clients_slot().iter().map(|x| x.to_string()).collect();
+                let public: Vec<String> = s.addresses().iter().map(addr_text).collect();
                 Some(format!(
-                    "ids=[{}] n={} max={} conn={} addr={} ud={} idle={}",
+                    "ids=[{}] n={} max={} conn={} addr={} ud={} idle={} time={} slots=[{}] pub={}",
                     ids.join(","),
                     s.connected_clients(),
                     s.max_clients(),
                     if s.is_client_connected(id) { 1 } else { 0 },
                     s.client_addr(id).map(|a| addr_text(&a)).unwrap_or("-".into()),
                     s.user_data(id).map(|u| hex(&u[..8])).unwrap_or("-".into()),
-                    s.time_since_last_received_packet(id).map(|d| d.as_nanos().to_string()).unwrap_or("-".into())
+                    s.time_since_last_received_packet(id).map(|d| d.as_nanos().to_string()).unwrap_or("-".into()),
+                    s.current_time().as_nanos(),
+                    slots.join(","),
+                    if public.is_empty() { "-".to_string() } else { public.join(",") }
                 ))
             }
             ["srv-dump", h] => Some(self.servers.get(&p_u64(h)?)?.verif_dump()),
